@@ -112,7 +112,9 @@ def scenario_xml(sc, observer=True):
         pass
     if sc.get("connectors"):
         # one connector file per species pair-list owner species (ParticleConnectorFile wants a species)
-        bc.append(["ParticleConnectorFile", {"nameInputFile": "connectors.con", **sc.get("connector_attrs", {})}])
+        ca = dict(sc.get("connector_attrs", {}))
+        ca.setdefault("species", " ".join(connector_species(sc)))
+        bc.append(["ParticleConnectorFile", {"nameInputFile": "connectors.con", **ca}])
     b = sc["box"]
     p = sc["periodic"]
     battrs = {"boxX": b[0], "boxY": b[1], "boxZ": b[2], "periodicX": bool(p[0]), "periodicY": bool(p[1]), "periodicZ": bool(p[2])}
@@ -163,8 +165,32 @@ def slots(sc):
     return res
 
 
+def connector_species(sc):
+    """species list of the ParticleConnectorFile: particle indices in the connector file count through these species in
+    this order (separately for free and frozen particles)"""
+    a = sc.get("connector_attrs", {}).get("species")
+    if a:
+        return a.split()
+    return sc.get("species_order") or sorted({p["species"] for p in sc["particles"]})
+
+
 def connector_file(sc):
     sl = slots(sc)
+    order = connector_species(sc)
+    count = {}
+    for p in sc["particles"]:
+        k = (p["species"], bool(p.get("frozen")))
+        count[k] = count.get(k, 0) + 1
+
+    def gidx(i):
+        p = sc["particles"][i]
+        fz = bool(p.get("frozen"))
+        off = 0
+        for sp in order:
+            if sp == p["species"]:
+                break
+            off += count.get((sp, fz), 0)
+        return off + sl[i]
     out = []
     for con in sc["connectors"]:
         out.append("pair %s %s %s" % (con["name"], con["species"][0], con["species"][1]))
@@ -172,7 +198,7 @@ def connector_file(sc):
     for con in sc["connectors"]:
         for (i, j) in con["pairs"]:
             pi, pj = sc["particles"][i], sc["particles"][j]
-            out.append("pair %s %d %s %d %s" % (con["name"], sl[i], "frozen" if pi.get("frozen") else "free", sl[j], "frozen" if pj.get("frozen") else "free"))
+            out.append("pair %s %d %s %d %s" % (con["name"], gidx(i), "frozen" if pi.get("frozen") else "free", gidx(j), "frozen" if pj.get("frozen") else "free"))
     return "\n".join(out) + "\n"
 
 
